@@ -86,7 +86,7 @@ func main() {
 	// random cells on region trees, huge sizes
 	dir := run.Scratch()
 	run.Units("random", run.Pick(300, 3000), 0, func(unit int64, r *rand.Rand) {
-		o := wit.HistOpts{Gen: gen.Opts{NLogs: 1 + r.IntN(2), Big: true, BigBits: 63, Branches: 3, ShareKeys: true}, MinSteps: 15, MaxSteps: 25, Dir: dir}
+		o := wit.HistOpts{Gen: gen.Opts{NLogs: 1 + r.IntN(3), Big: true, BigBits: 63, Branches: 3, ShareKeys: true, SameKeyNames: true}, MinSteps: 15, MaxSteps: 25, Dir: dir}
 		if unit%3 == 1 {
 			// requests that fail in storage are not judged, but every later request is judged against what the
 			// store really holds: state kept beside the store must not survive a failed write
